@@ -10,6 +10,7 @@ Extracted from the comment-stripped text:
     selected type, plus the fall-back type; the condition text is kept verbatim.
   * include/etl/_vector/static_vector.hpp: the chain of `static_vector_storage_type` (condition text, selected storage)
     and every alias `using X = smallest_size_t<ARG>`; likewise the aliases of _inplace_vector/inplace_vector.hpp.
+  * include/etl/_string/basic_inplace_string.hpp: the chain of `layout_type` (`Capacity < 16` -> tiny_layout), as text.
 Anything the parser does not understand is an error (the check then reports the proof obligations as broken instead of
 silently keeping an old model).  Nothing is evaluated here: the Lean side gives the terms their value.
 """
@@ -238,6 +239,11 @@ def extract(repo):
         for mm in re.finditer(r"\busing\s+(\w+)\s*=\s*(?:etl::)?smallest_size_t\s*<([^>;]*)>\s*;", t):
             users.append((rel, mm.group(1), norm(mm.group(2))))
     info["users"] = users
+    # the other layout switch that depends on the capacity: basic_inplace_string (C04's subject; recorded here as text only)
+    st = strip_comments(open(os.path.join(inc, "_string", "basic_inplace_string.hpp")).read())
+    links, fb = chain_of(alias_body(st, "layout_type"))
+    info["string_layout"] = [(c, t) for c, t in links]
+    info["string_layout_else"] = fb
     return info
 
 
@@ -263,6 +269,10 @@ def render(info):
             "/-- every alias of `smallest_size_t<…>` in the two vector headers: (file, alias, template argument) -/",
             "def sizeTypeUsers : List (String × String × String) := ["]
     out.append(",\n".join("  (%s, %s, %s)" % (lean_str(f), lean_str(a), lean_str(x)) for f, a, x in info["users"]) + "]")
+    out += ["", "/-- `basic_inplace_string::layout_type`: (condition, layout selected); C04 models it (`Tetl.C04.isTiny`) -/",
+            "def stringLayoutSelect : List (String × String) := ["]
+    out.append(",\n".join("  (%s, %s)" % (lean_str(c), lean_str(t)) for c, t in info["string_layout"]) + "]")
+    out += ["", "def stringLayoutElse : String := %s" % lean_str(info["string_layout_else"])]
     out += ["", "end Tetl.C01.GenSize", ""]
     return "\n".join(out)
 
